@@ -276,8 +276,89 @@ def root_deleted_then_close():
     return out
 
 
+def two_closers():
+    """two threads close the same instance; closer A is parked right before it takes the instance lock while B closes"""
+    base = tempfile.mkdtemp(prefix="c12f")
+    out = []
+    try:
+        for reading in (False, True):
+            ino = ic.Inotify(base.encode())
+            fds = (ino._inotify_fd, ino._kill_r, ino._kill_w)
+            m = FdMachine(fds)
+            m.install(ino)
+            try:
+                rd = None
+                if reading:
+                    rd = threading.Thread(target=ino.read_events, name="reader2")
+                    rd.start()
+                    time.sleep(0.05)
+                gl = GateLock(ino._lock, "closerA", ("acquire", 1))
+                ino._lock = gl
+                a = threading.Thread(target=ino.close, name="closerA")
+                a.start()
+                if not gl.reached.wait(2):
+                    out.append("closer A never reached the instance lock")
+                ino.close()
+                gl.go.set()
+                a.join(3)
+                if rd is not None:
+                    rd.join(3)
+                    if rd.is_alive():
+                        out.append("reader still blocked after two close() calls")
+                out.extend(f"two closers (reader {'blocked in poll' if reading else 'absent'}): {v}" for v in m.viol)
+                left = [fd for fd, st in m.state.items() if st == "open"]
+                if left:
+                    out.append(f"two closers: descriptors {left} never released")
+            finally:
+                m.uninstall()
+                for fd, st in m.state.items():
+                    if st == "open":
+                        try:
+                            os.close(fd)
+                        except OSError:
+                            pass
+    finally:
+        shutil.rmtree(base, ignore_errors=True)
+    return out
+
+
+def restart_cycles():
+    """stop(); start(); stop() on an emitter and observer.stop(); schedule(); start(); stop(): what a start() after a stop() creates is released by the next stop()"""
+    from watchdog.observers.inotify import InotifyEmitter
+    from watchdog.observers.api import ObservedWatch
+    from watchdog.events import FileSystemEventHandler as H
+    import queue
+    base = tempfile.mkdtemp(prefix="c12g")
+    out = []
+    try:
+        f0, t0 = nfds(), lib_threads()
+        for _ in range(3):
+            em = InotifyEmitter(queue.Queue(), ObservedWatch(base, recursive=True))
+            em.stop()
+            em.start()
+            em.stop()
+            em.join(3)
+        time.sleep(0.1)
+        if nfds() != f0 or lib_threads() != t0:
+            out.append(f"emitter stop(); start(); stop() x3: descriptors {nfds() - f0:+d}, threads left {lib_threads()}")
+        f0, t0 = nfds(), lib_threads()
+        for _ in range(3):
+            o = Observer()
+            o.stop()
+            o.schedule(H(), base, recursive=True)
+            o.start()
+            o.stop()
+            o.join(3)
+        time.sleep(0.1)
+        if nfds() != f0 or lib_threads() != t0:
+            out.append(f"observer stop(); schedule(); start(); stop() x3: descriptors {nfds() - f0:+d}, threads left {lib_threads()}")
+    finally:
+        shutil.rmtree(base, ignore_errors=True)
+    return out
+
+
 PARKS = [("acquire", 1), ("release", 1), ("acquire", 2), ("release", 2), ("acquire", 3)]
-SCEN = {"cycles": cycles, "failed-schedules": failed_schedules, "close-before-first-read": close_before_first_read, "root-deleted-then-close": root_deleted_then_close}
+SCEN = {"cycles": cycles, "failed-schedules": failed_schedules, "close-before-first-read": close_before_first_read, "root-deleted-then-close": root_deleted_then_close, "two-closers": two_closers, "restart-cycles": restart_cycles}
 for p in PARKS:
     SCEN[f"close-vs-reader@{p[0]}{p[1]}"] = (lambda p=p: close_vs_reader(p))
 
